@@ -2,19 +2,22 @@
 import json
 
 ID = "C09"
-HARNESS_TEST = "TestC09"
+HARNESS_TEST = "TestC09|TestC09Routes"
 GEN = "c09"
 COQ_MODEL = ["C09/Check.v", "C09/Sites.v", "Gen/C09Facts.v"]
 COQ_PROOF_DEPS = ["C09/Proofs.v"]
 COQ_OBLIG = ["C09/Property.v", "Gen/C09Oblig.v"]
 CASES_HEADER = "Require Import Nib.C09.Model Nib.C09.Spec Nib.C09.Sites Nib.C09.Check Nib.Gen.C09Facts."
-CASE_TYPE = "case"
+CASE_TYPE = "anycase"
 # the model the implementation is compared with follows the regenerated inventory of pointer sites:
 # Isolated (the code as it is since fix 509f604) when every access to Keeper.Bank.StateDB is guarded against
 # check-state contexts, Shared (the faithful model of the unguarded code) otherwise
-MISMATCH_FN = "mismatch_in (mode_of ptr_sites)"
-VIOLATES_FN = "violates"
-RULE = ("case = (deliver script: init code of a contract-creation EVM tx made of yield / native send / FunToken.bankMsgSend steps, "
+MISMATCH_FN = "mismatch_any (mode_of ptr_sites)"
+VIOLATES_FN = "violates_any"
+RULE = ("two drivers. (2) routes: every method of the generated QueryServer interface of inflation / oracle / epochs / sudo / tokenfactory / "
+        "devgas / evm (enumerated by reflection, empty + populated request, through app.Query) issued after Commit of / inside a chosen block of "
+        "a sequence that ends two day epochs (inflation mints), vote periods and a slash window; non-trivial = requests answered and the "
+        "reference replica minted. (1) case = (deliver script: init code of a contract-creation EVM tx made of yield / native send / FunToken.bankMsgSend steps, "
         "optionally reverting; 0-3 requests: eth_call / estimateGas / traceTx (view, value transfer, bankMsgSend of unibi or of another "
         "denom, sendToBank / sendToEvm of a mapped ERC20; five argument styles incl. EIP-1559 fee cap + tip), tx simulation (EVM transfer, "
         "EVM bankMsgSend, Cosmos bank send), gRPC balance / funtoken / oracle queries; the scenario tx is priced exactly at the base fee, "
@@ -68,7 +71,18 @@ def _zl(xs):
     return "[" + "; ".join(_z(x) for x in xs) + "]"
 
 
+def _is_route(rec):
+    return isinstance(rec.get("input"), dict) and rec["input"].get("driver") == "routes"
+
+
 def to_coq_case(rec):
+    if _is_route(rec):
+        o = rec["obs"]
+        return "(CRoute (mkRoute %s %s %s))" % (_b(o["hash_eq"]), _b(o["supply_eq"]), _b(o["events_eq"] and not o.get("panic")))
+    return "(CEvm %s)" % _evm_case(rec)
+
+
+def _evm_case(rec):
     i, o = rec["input"], rec["obs"]
     steps = []
     for s in i["steps"]:
@@ -97,6 +111,9 @@ def to_coq_case(rec):
 
 def _in_flight(rec):
     i, o = rec["input"], rec["obs"]
+    if _is_route(rec):
+        # the requests were answered and the block sequence really minted (a day epoch ended) on the reference replica
+        return o["q_ok"] > 0 and int(o["minted"]) > 0
     if i["point"] == "parked":
         return bool(o.get("parked"))
     return i["point"] == "yield" and o["injected"] and len(i["queries"]) > 0
@@ -108,6 +125,9 @@ def nontrivial(rec):
 
 def classify(rec):
     i, o = rec["input"], rec["obs"]
+    if _is_route(rec):
+        return ["driver:routes", "svc:" + i["svc"], "at:%s/%d" % (i["at"], i["block"]), "routes=%d" % o["routes"],
+                "interference:" + _effect(rec)]
     ks = ["point:" + ((i["point"] + ("" if i["point"] != "parked" or o.get("parked") else "-not-parked")) if o["injected"] else "not-reached"), "queries=%d" % len(i["queries"]),
           "steps=%d" % len(i["steps"]), "revert" if i["revert"] else "no-revert"]
     for q, r in zip(i["queries"], o["qres"]):
@@ -123,6 +143,14 @@ def describe(rec):
 
 def _effect(rec):
     o = rec["obs"]
+    if _is_route(rec):
+        if o.get("panic"):
+            return "block-execution-panicked"
+        if not o["supply_eq"]:
+            return "supply-differs"
+        if not o["hash_eq"]:
+            return "app-hash-differs"
+        return "none" if o["events_eq"] else "block-events-differ"
     if o.get("panic"):
         return "deliver-tx-panicked"
     if o["base_ok"] and not o["tx_ok"]:
@@ -141,6 +169,8 @@ def signature(rec):
     """Identifies a finding: where the request ran, which requests could reach the shared StateDB pointer (entry point :
     operation; all requests of the case when none of them performs a unibi bank operation), what changed."""
     i = rec["input"]
+    if _is_route(rec):
+        return {"kind": "grpc-routes-%s-block" % i["at"], "query": "all-routes:" + i["svc"], "effect": _effect(rec)}
     kinds = sorted({q["kind"] for q in i["queries"]})
     banking = [k for k in kinds if k in BANKING]
     named = banking if (banking and _in_flight(rec)) else kinds
@@ -151,11 +181,17 @@ def signature(rec):
 
 
 def input_size(inp):
+    if inp.get("driver") == "routes":
+        return 100 if inp["svc"] == "all" else 10
     return len(inp["steps"]) * 10 + len(inp["queries"]) * 25 + (5 if inp["revert"] else 0) + \
         sum(1 for s in inp["steps"] if s["op"] != "yield")
 
 
 def shrink_candidates(inp):
+    if inp.get("driver") == "routes":
+        if inp["svc"] == "all":
+            return [dict(inp, svc=s) for s in ("inflation", "oracle", "epochs", "sudo", "tokenfactory", "devgas", "evm")]
+        return []
     out = []
     qs, st = inp["queries"], inp["steps"]
     if len(qs) > 1:
@@ -198,7 +234,7 @@ def model_search(chk):
         f.write("From Coq Require Import List ZArith String. Import ListNotations.\n" + CASES_HEADER + "\n")
         f.write("Set Printing Width 1000000. Set Printing Depth 1000000.\n")
         f.write("Definition cs : list (nat * case) := [\n")
-        f.write(";\n".join("  (%d, %s)" % (n, to_coq_case({"input": i, "obs": fake})) for n, i in enumerate(inputs)))
+        f.write(";\n".join("  (%d, %s)" % (n, _evm_case({"input": i, "obs": fake})) for n, i in enumerate(inputs)))
         f.write("\n].\nDefinition bad := Eval vm_compute in map fst (filter (fun c => negb (Pb (predict (mode_of ptr_sites) (snd c)))) cs).\nPrint bad.\n")
     rc, out, _ = chk.coqc(path)
     pred = []
